@@ -60,8 +60,20 @@ func (d Matches) Less(i, j int) bool {
 	if di.StartTokenIndex != dj.StartTokenIndex {
 		return di.StartTokenIndex < dj.StartTokenIndex
 	}
-	// Should never get here, but tiebreak based on the larger license.
-	return di.EndTokenIndex > dj.EndTokenIndex
+	// Tiebreak based on the larger license.
+	if di.EndTokenIndex != dj.EndTokenIndex {
+		return di.EndTokenIndex > dj.EndTokenIndex
+	}
+	// Different documents can cover the same tokens with the same confidence
+	// (e.g. two variants with identical text). Candidates are collected in map
+	// iteration order, so they need a total order to be reported deterministically.
+	if di.Name != dj.Name {
+		return di.Name < dj.Name
+	}
+	if di.Variant != dj.Variant {
+		return di.Variant < dj.Variant
+	}
+	return di.MatchType < dj.MatchType
 }
 
 // Match reports instances of the supplied content in the corpus.
